@@ -292,7 +292,33 @@ func runJobs(prog *sym.Program, jobs []job, workers int, solver string, timeoutM
 			}
 		}()
 	}
+	stopBeat := make(chan struct{})
+	go func() {
+		t := time.NewTicker(120 * time.Second)
+		defer t.Stop()
+		for {
+			select {
+			case <-stopBeat:
+				return
+			case <-t.C:
+				p.mu.Lock()
+				paths := 0
+				per := map[string]int{}
+				for _, r := range p.results {
+					paths += r.stats.Paths
+					per[r.job.meta.Name] += r.stats.Paths
+				}
+				queued := map[string]int{}
+				for _, j := range p.queue {
+					queued[j.meta.Name]++
+				}
+				fmt.Fprintf(os.Stderr, "progress: tasks done=%d queued=%d active=%d paths so far=%d queued-by-harness=%v\n", len(p.results), len(p.queue), p.active, paths, queued)
+				p.mu.Unlock()
+			}
+		}
+	}()
 	wg.Wait()
+	close(stopBeat)
 	results := p.results
 	sort.Slice(results, func(i, k int) bool {
 		if results[i].job.meta.Name != results[k].job.meta.Name {
